@@ -16,6 +16,7 @@ type Sample struct {
 	Rel    string // relative to the repository
 	Format string // "" = probe
 	Size   int64
+	Opts   []string // -o key=value options of the command line (without @file values)
 }
 
 var (
@@ -78,10 +79,18 @@ func load() {
 			args := splitArgs(line[5:])
 			format := ""
 			var files []string
+			var opts []string
 			for i := 0; i < len(args); i++ {
 				a := args[i]
 				if a == "-d" && i+1 < len(args) {
 					format = args[i+1]
+					i++
+					continue
+				}
+				if a == "-o" && i+1 < len(args) {
+					if kv := args[i+1]; !strings.Contains(kv, "=@") && !strings.Contains(kv, "\\") && !strings.Contains(kv, "\t") {
+						opts = append(opts, kv)
+					}
 					i++
 					continue
 				}
@@ -94,14 +103,14 @@ func load() {
 				}
 			}
 			for _, fp := range files {
-				key := fp + "|" + format
+				key := fp + "|" + format + "|" + strings.Join(opts, ",")
 				if seen[key] {
 					continue
 				}
 				seen[key] = true
 				st, _ := os.Stat(fp)
 				rel, _ := filepath.Rel(Repo, fp)
-				samples = append(samples, Sample{Path: fp, Rel: rel, Format: format, Size: st.Size()})
+				samples = append(samples, Sample{Path: fp, Rel: rel, Format: format, Size: st.Size(), Opts: opts})
 			}
 		}
 		return nil
@@ -110,8 +119,37 @@ func load() {
 		if samples[i].Rel != samples[j].Rel {
 			return samples[i].Rel < samples[j].Rel
 		}
-		return samples[i].Format < samples[j].Format
+		if samples[i].Format != samples[j].Format {
+			return samples[i].Format < samples[j].Format
+		}
+		return strings.Join(samples[i].Opts, ",") < strings.Join(samples[j].Opts, ",")
 	})
+	// a sample that some command line decodes only with options (e.g. the zip
+	// bomb with uncompress=false) is never used without them
+	needs := map[string]bool{}
+	for _, s := range samples {
+		for _, o := range s.Opts {
+			if o == "uncompress=false" {
+				needs[s.Path] = true
+			}
+		}
+	}
+	var kept []Sample
+	for _, s := range samples {
+		if needs[s.Path] {
+			has := false
+			for _, o := range s.Opts {
+				if o == "uncompress=false" {
+					has = true
+				}
+			}
+			if !has {
+				continue
+			}
+		}
+		kept = append(kept, s)
+	}
+	samples = kept
 }
 
 // All returns every harvested pair, in a stable order.
